@@ -183,7 +183,7 @@ def module_case(arg):
                                         s.name, params, k, v0, n0, v1, n1, meta[ser[-1]][2].hex()),
                                     "coords": gm["coords"], "struct": s.name, "params": params,
                                     "data": meta[ser[-1]][2].hex(), "text": gm["text"]})
-    out["viol"] = out["viol"][:40]
+    out["viol"] = common.cap_by_mech(out["viol"])
     return out
 
 
